@@ -300,7 +300,9 @@ func (c *Conn) GetNextActionFromByte(start int64) *NextActionInfo {
 		ind := sort.Search(len(actions),
 			func(i int) bool { return actions[i].getByte() >= start })
 
-		return c.GetNextActionFromIndex(int64(ind))
+		// The locks are held already: taking them a second time would
+		// deadlock with a writer that started waiting in between.
+		return nextActionFromIndex(actions, int64(ind))
 	}
 
 	return &NextActionInfo{
@@ -323,8 +325,12 @@ func (c *Conn) GetNextActionFromIndex(ind int64) *NextActionInfo {
 	c.Shapes.M[c.Context.URLRegex].RLock()
 	defer c.Shapes.M[c.Context.URLRegex].RUnlock()
 
-	actions := c.Shapes.M[c.Context.URLRegex].Shape.Actions
+	return nextActionFromIndex(c.Shapes.M[c.Context.URLRegex].Shape.Actions, ind)
+}
 
+// nextActionFromIndex returns the first action from the index on that has a non
+// zero count, if there is one. The caller holds the locks protecting actions.
+func nextActionFromIndex(actions []Action, ind int64) *NextActionInfo {
 	if l := int64(len(actions)); l != 0 {
 
 		for ind < l && (actions[ind].getCount() == 0) {
